@@ -1,7 +1,9 @@
 # engine C (collectives / RMA / replay): plan interpreter compiled with the tree's smpicc,
-# plus the small standalone reproducer program used to confirm C29 findings by hand
-TARGETS += $(OUT)/mpicoll $(OUT)/c29_repro
+# plus the small standalone reproducer programs used to confirm C29 / C34 findings by hand
+TARGETS += $(OUT)/mpicoll $(OUT)/c29_repro $(OUT)/c34_repro
 $(OUT)/mpicoll: /verif/sim/mpicoll.c $(SG)/lib/libsimgrid.so
 	$(SMPICC) -O1 -g -Wall -Wno-unused-function /verif/sim/mpicoll.c -o $@
 $(OUT)/c29_repro: /verif/sim/c29_repro.c $(SG)/lib/libsimgrid.so
 	$(SMPICC) -O1 -g -Wall /verif/sim/c29_repro.c -o $@
+$(OUT)/c34_repro: /verif/sim/c34_repro.c $(SG)/lib/libsimgrid.so
+	$(SMPICC) -O1 -g -Wall /verif/sim/c34_repro.c -o $@
